@@ -73,7 +73,7 @@ def run(M, rep, tier, only=None):
     R2 = rep.rule("C11.R2", "_check_header dispatch: format tag, mode, version gate, file id", floor=100,
                   technique="decision-table extraction + exhaustive comparison with the spec table")
     R3 = rep.rule("C11.R3", "mode -> HDF5 access flag table", floor=4, technique="decision table vs HDF5 flag semantics")
-    R4 = rep.rule("C11.R4", "open/create decision of File.__init__", floor=8,
+    R4 = rep.rule("C11.R4", "open/create decision of File.__init__", floor=6,
                   technique="all abstract paths: events before the first h5py file call")
     R5 = rep.rule("C11.R5", "h5py file open/create only in File.__init__", floor=1, technique="resolved call graph: who-may-call")
 
